@@ -184,7 +184,7 @@ MODEL_PARAMS = {
 #: benchmark points: phase guesses and derivative scales per model
 POINTS = {
     "yukawa": {"phase1": [0.4], "phase2": [27.0], "Tscale": 1.0, "fscale": [100.0],
-               "good": [7.0, 7.5, 8.0, 8.2, 8.3], "bad": [8.6, 4.9]},
+               "good": [5.5, 5.8, 6.5, 7.0, 7.3, 7.5, 7.6, 7.7, 7.9, 8.0, 8.2, 8.3], "bad": [8.6, 4.9]},
     "bag": {"phase1": [0.0], "phase2": [1.2], "Tscale": None, "fscale": [1.0],
             "good": [0.5], "bad": []},
 }
